@@ -65,6 +65,7 @@ pub fn end_kind(e: &RunEnd) -> &'static str {
         RunEnd::NotFound => "not-found",
         RunEnd::RequiredMissing => "required-missing",
         RunEnd::Panicked => "panic",
+        RunEnd::Budget => "budget",
         RunEnd::Other(_) => "other-error",
     }
 }
@@ -83,6 +84,10 @@ pub fn check_one(
         it.model.top().insert(TAG_LOGCFG, 1);
     }
     let exp_end = it.run(p);
+    if exp_end == RunEnd::Budget {
+        *fp = None;
+        return None;
+    }
     let real = run_real(p, fault, true, clone_config);
     *steps += it.steps;
     for (k, v) in &it.probes {
@@ -155,6 +160,7 @@ impl World for C03World {
             real_conds: self.real_conds,
             loggers: self.loggers,
             requires: true,
+            small_values: false,
         };
         let program = ProgGen::new(&mut g, &cfg).program();
         Case { program, plans: Plans::All, clone_config: g.chance(0.25) }
